@@ -696,3 +696,87 @@ def requeue_rule(res, fx):
                         'distances of vertices already expanded from it stay too long' % (f['name'].replace('opensmt::', ''), relax[0].get('ln')))
     if n_blocks < 3:
         raise AnalysisBroken('label-correcting-requeue: expected >= 3 relaxation blocks in the STP searches, found %d' % n_blocks)
+
+
+# ---------------------------------------------------------------------------------------------------------------------
+def interface_terms_rule(res, fx):
+    """C02 (theory combination): which terms are exchanged between the UF/array side and the arithmetic side.  Two independent seeds made numerals under uninterpreted
+    symbols interface terms only if they also occur in an arithmetic atom; the arithmetic solver knows the value of every numeral whether or not it occurs there."""
+    import itertools
+    from boolctor import Interp, Unmodelled, Thrown
+    r = res.rule('interface-terms-complete', 'CollectInterfaceVariablesConfig::visit / updateOccurrenceUsingType: after any sequence of visited parent terms, a numeric variable is an interface term '
+                 'iff it occurs under an arithmetic symbol and under an uninterpreted symbol / equality / select / store, and a numeral is an interface term as soon as it occurs under an '
+                 'uninterpreted symbol / equality / select / store (its value is known to the arithmetic solver without occurring in an arithmetic atom)', floor=50)
+    cls = 'opensmt::CollectInterfaceVariablesConfig'
+    vis = [f for f in fx.F.values() if f['name'].endswith('CollectInterfaceVariablesConfig::visit') and f.get('body')]
+    upd = [f for f in fx.F.values() if f['name'].endswith('CollectInterfaceVariablesConfig::updateOccurrenceUsingType') and f.get('body')]
+    if len(vis) != 1 or len(upd) != 1:
+        raise AnalysisBroken('CollectInterfaceVariablesConfig::visit / updateOccurrenceUsingType not found (%d, %d)' % (len(vis), len(upd)))
+    vis, upd = vis[0], upd[0]
+    parent_kinds = ['arith', 'uf', 'eq', 'select', 'store', 'bool']
+    children = [('numvar', 'x'), ('numconst', '3')]
+
+    def run_sequence(seq):
+        occ, iv = {}, []
+
+        def update(i, a, n):
+            it2 = Interp(fx, upd, '?', {})
+            it2.oracle = {
+                'peek': lambda i2, a2, n2: (i2.env.__setitem__(see_through(n2['a'][1])['n'], occ[a2[0]]) or True) if a2[0] in occ else False,
+                'insert': lambda i2, a2, n2: occ.__setitem__(a2[0], a2[1]),
+                'push': lambda i2, a2, n2: iv.append(a2[0]),
+            }
+            env = {upd['params'][0]['n']: a[0], upd['params'][1]['n']: a[1], 'this.occurrences': occ, 'this.interfaceVars': iv}
+            try:
+                it2.run_env(env)
+            except Unmodelled as e:
+                if 'falls off the end' not in str(e):
+                    raise
+            return None
+        for pk, child in seq:
+            it = Interp(fx, vis, '?', {})
+            it.oracle = {
+                'getSymRef': lambda i, a, n, pk=pk: ('sym', pk),
+                'isArithmeticSymbol': lambda i, a, n: a[-1] == ('sym', 'arith'),
+                'isUninterpreted': lambda i, a, n: a[-1] == ('sym', 'uf'),
+                'isEquality': lambda i, a, n: a[-1] == ('sym', 'eq'),
+                'isArraySelect': lambda i, a, n: a[-1] == ('sym', 'select'),
+                'isArrayStore': lambda i, a, n: a[-1] == ('sym', 'store'),
+                'getPterm': lambda i, a, n, child=child: [child],
+                'isVar': lambda i, a, n: a[0][0] == 'numvar',
+                'isNumVar': lambda i, a, n: a[0][0] == 'numvar',
+                'isNumConst': lambda i, a, n: a[0][0] == 'numconst',
+                'updateOccurrenceUsingType': update,
+            }
+            try:
+                it.run_env({vis['params'][0]['n']: ('term', pk), 'this.logic': ('logic',)})
+            except Unmodelled as e:
+                if 'falls off the end' not in str(e):
+                    raise
+        return iv
+    n = 0
+    bad = None
+    try:
+        for ln in (1, 2, 3):
+            for seq in itertools.product([(pk, ch) for pk in parent_kinds for ch in children], repeat=ln):
+                n += 1
+                iv = run_sequence(seq)
+                want = set()
+                for ch in children:
+                    under_arith = any(pk == 'arith' and c == ch for pk, c in seq)
+                    under_unint = any(pk in ('uf', 'eq', 'select', 'store') and c == ch for pk, c in seq)
+                    if (ch[0] == 'numconst' and under_unint) or (under_arith and under_unint):
+                        want.add(ch)
+                if set(iv) != want or len(iv) != len(set(iv)):
+                    bad = bad or (seq, iv, want)
+    except Unmodelled as e:
+        raise AnalysisBroken('CollectInterfaceVariablesConfig is outside the modelled subset: %s' % e)
+    r['instances'] += n
+    if bad:
+        seq, iv, want = bad
+        r['instances'] -= 1
+        res.bad(r, 'interface-term-missed', fx.loc(vis), 'CollectInterfaceVariablesConfig: after visiting %s the interface terms are %s, they must be %s: an equality between a term and this one '
+                'is never handed from the arithmetic side to the UF / array side, and a complete check answers sat for an unsatisfiable combination'
+                % ([('%s(%s)' % (pk, c[1])) for pk, c in seq], [c[1] for c in iv], sorted(c[1] for c in want)))
+    else:
+        r['sites'].append('%d visit sequences of length 1-3 over %d parent kinds and a numeric variable / a numeral' % (n, len(parent_kinds)))
